@@ -251,10 +251,40 @@ def run(P, rep, tier):
         n = check_kind(cg, rep, 'R20.1', 'gen_expr', kind, preset(cg, kind), value_from_last_stmt=(kind == 'ND_STMT_EXPR'))
         if n == 0:
             rep.undecided('R20.1', '%s:gen_expr:%s' % (U, kind), 'no returning path for a kind gen_expr has an arm for')
+    r_calls(cg, P, rep, tier)
     for kind in STMT_KINDS:
         n = check_kind(cg, rep, 'R20.2', 'gen_stmt', kind, preset_stmt(cg, kind), ret_stmt=(kind == 'ND_RETURN'))
         if n == 0:
             rep.undecided('R20.2', '%s:gen_stmt:%s' % (U, kind), 'no returning path')
+
+
+def r_calls(cg, P, rep, tier):
+    """ND_FUNCALL is analysed on concrete calls (argument lists make the per-kind exploration explode):
+    for each argument class at each stack parity the stack pushed for the call is released after it."""
+    from ..lib_abi import Builder
+    from .c06 import run_caller
+    from ..x86 import Unknown
+    rep.rule('R20.5', 'call expressions: everything pushed for a call (arguments, alignment padding, long double slots) is released after it, and `depth` returns to its value before the call, for every argument class and stack parity', floor=30)
+    B = Builder(P)
+    where = '%s:%d' % (U, cg.cu.fn('push_args').line if cg.cu.fn('push_args') else 0)
+    sigs = [[], ['int'], ['double'], ['ldouble'], ['s_ld'], ['s_l3'], ['long'] * 7, ['long'] * 8, ['double'] * 9, ['double'] * 10,
+            ['long'] * 7 + ['ldouble'], ['long'] * 6 + ['ldouble'], ['double'] * 9 + ['ldouble'], ['long'] * 7 + ['s_l3'], ['long'] * 6 + ['s_ll'],
+            ['ldouble', 'ldouble'], ['long'] * 7 + ['ldouble', 'int'], ['s_l3', 'ldouble', 'long', 'long', 'long', 'long', 'long', 'long', 'long']]
+    for ret in ('int', 'ldouble', 's_ll', 's_l3'):
+        for types in sigs:
+            for depth0 in (0, 1):
+                key = '%s:ND_FUNCALL:(%s)->%s/depth%d' % (U, ','.join(types), ret, depth0)
+                try:
+                    ctx, tr, s = run_caller(cg, B, types, ret, depth0)
+                except Unknown as e:
+                    rep.undecided('R20.5', key, str(e), where=where); continue
+                dd = ctx.globals.get('depth')
+                ok = len(s.stack) == 0 and dd == depth0
+                rep.ob('R20.5', key, ok, 'after the call %d pushed slot(s) are still on the stack and `depth` is %r (was %d): each evaluation of this call leaks stack' % (len(s.stack), dd, depth0), where=where, facts={'trace': tr.text()[-12:]})
+                want87 = 1 if ret == 'ldouble' else 0
+                n87 = len([x for x in s.st])
+                # x87: a long double result is left in st0 by the callee (the machine does not model it), arguments must have been popped
+                rep.ob('R20.5', key + ':x87', n87 == 0, 'after the call %d long double argument value(s) are still on the x87 stack' % n87, where=where)
 
 
 def expr_kinds_handled(cg):
